@@ -14,7 +14,7 @@ def validate(w, evfile):
 
 def run(rep, tier, seed):
     thorough = tier == "thorough"
-    rep.assumptions += ["spec/Total.tla: the operand space = templates (every operator, dice form, postfix form, method, built-in, st form) x value classes (20 representatives, split where a crash can depend on the split) written by TLC as the complete product; "
+    rep.assumptions += ["spec/Total.tla: the operand space = templates (every operator, dice form, postfix form, method, built-in, st form) x value classes (22 representatives, split where a crash can depend on the split) written by TLC as the complete product; "
                         "each case is placed in nesting contexts (statement list, if, loop, loop with continue, template hole, template block, function body, computed value, array, assignment, parentheses, after an array on the previous line)",
                         "observation sequence per input: Parse, RunAfterParsed, GetDetailText, Run again, GetDetailText twice, GetAsmText, Ret.ToString/ToRepr/ToJSON, Matched/RestInput, RunExpr; VMs serve up to 4 inputs so that each meets state left by earlier ones",
                         "configurations drawn per VM: 2^4 family flags, DisableStmts/NDice/Bitwise, IgnoreDiv0, min/normal/max mode, DefaultDiceSideExpr in {'', 20, d6, x7, v_str, 1/0}, OpCountLimit in {300, 3000, 20000}, ParseExprLimit in {3000, 10^7}",
